@@ -30,8 +30,10 @@ std::string sockPath() {
 // raw client: connect, send bytes (optionally in pieces), behaviour, read all
 struct Session {
   std::string request;
-  std::string behaviour; // read | halfclose | reset | stall
+  std::string behaviour; // read | halfclose | reset | stall | noread_then_read | hold
   std::string reply;
+  std::atomic<bool>* sent{nullptr}; // "hold": set once the request is out
+  std::atomic<bool>* release{nullptr}; // "hold": keep the connection open until set
   bool connected{false};
   bool eof{false};
 };
@@ -84,6 +86,17 @@ void runSession(const std::string& path, Session& s) {
     setsockopt(fd, SOL_SOCKET, SO_LINGER, &l, sizeof l);
     ::close(fd);
     return;
+  }
+  if (s.behaviour == "hold") {
+    // never reads; keeps the connection open across the service's shutdown
+    if (s.sent) *s.sent = true;
+    while (s.release && !*s.release) std::this_thread::sleep_for(std::chrono::milliseconds(5));
+    ::close(fd);
+    return;
+  }
+  if (s.behaviour == "noread_then_read") {
+    // stalls past the server's 2 s send timeout before reading anything
+    std::this_thread::sleep_for(std::chrono::milliseconds(2600));
   }
   // "stall": we sent what we sent and now just wait for the server to give up
   readAll(fd, s, 6000);
@@ -182,6 +195,23 @@ Json::Value genProto() {
     c["sessions"].append(s);
   }
   c["parallel"] = P(60);
+  // a reply larger than the socket buffer to a client that does not read it:
+  // the handler sits in send() until its timeout; optionally the service is
+  // shut down meanwhile
+  if (P(6)) {
+    c["bigkeys"] = R(15000, 30000);
+    int k = W({40, 60});
+    if (k == 0) {
+      Json::Value s(Json::objectValue);
+      s["req"].append((int)'g');
+      s["req"].append((int)'\n');
+      s["beh"] = "noread_then_read";
+      c["sessions"].append(s);
+      c["parallel"] = true;
+    } else {
+      c["hold_during_shutdown"] = true;
+    }
+  }
   // counters before the sessions
   for (auto& k : kKeys)
     if (P(60)) c["init"][k] = R(0, 50);
@@ -353,6 +383,9 @@ Verdict runProto(const Json::Value& c) {
     ss.push_back(s);
   }
   bool abnormal = false;
+  std::atomic<bool> holdSent{false}, holdRelease{false};
+  Session holdSession;
+  std::thread holder;
   auto t0 = std::chrono::steady_clock::now();
   {
     auto stats = Oomd::Stats::get_for_unittest(path);
@@ -362,6 +395,7 @@ Verdict runProto(const Json::Value& c) {
         stats->set(k, c["init"][k].asInt());
         init[k] = c["init"][k].asInt();
       }
+    for (int k = 0; k < c.get("bigkeys", 0).asInt(); k++) stats->set("oomd.big.counter." + std::to_string(k), k);
     if (c["parallel"].asBool()) {
       std::vector<std::thread> th;
       for (auto& s : ss) th.emplace_back([&path, &s]() { runSession(path, s); });
@@ -375,6 +409,12 @@ Verdict runProto(const Json::Value& c) {
       if (!s.connected) {
         v.fail("client could not connect to the stats socket");
         break;
+      }
+      if (s.behaviour == "noread_then_read") {
+        // whatever part of the reply fitted the socket buffer arrives; the
+        // server must have hung up
+        if (!s.eof) v.fail("a client that stalled past the send timeout before reading was not disconnected within 6 s");
+        continue;
       }
       if (s.behaviour == "reset") {
         // we did not read; an 'r' may or may not have been processed before
@@ -450,12 +490,27 @@ Verdict runProto(const Json::Value& c) {
         }
       }
     }
+    if (v.ok && c.get("hold_during_shutdown", false).asBool()) {
+      holdSession.request = "g\n";
+      holdSession.behaviour = "hold";
+      holdSession.sent = &holdSent;
+      holdSession.release = &holdRelease;
+      holder = std::thread([&path, &holdSession]() { runSession(path, holdSession); });
+      auto w0 = std::chrono::steady_clock::now();
+      while (!holdSent && std::chrono::steady_clock::now() - w0 < std::chrono::seconds(5)) std::this_thread::sleep_for(std::chrono::milliseconds(2));
+      // give the handler time to read the request and fill the socket buffer
+      std::this_thread::sleep_for(std::chrono::milliseconds(50));
+      abnormal = true;
+    }
   } // ~Stats must complete (an abort from the destructor kills the harness)
+  holdRelease = true;
+  if (holder.joinable()) holder.join();
   auto dt = std::chrono::duration_cast<std::chrono::milliseconds>(std::chrono::steady_clock::now() - t0).count();
   if (dt > 20000) v.fail("sessions + shutdown took " + std::to_string(dt) + " ms");
   v.nontrivial = abnormal;
   v.labels.push_back("proto");
   if (abnormal) v.labels.push_back("abnormal_session");
+  if (c.isMember("bigkeys")) v.labels.push_back(c.get("hold_during_shutdown", false).asBool() ? "big_reply_unread_during_shutdown" : "big_reply_read_after_timeout");
   return v;
 }
 
